@@ -96,6 +96,7 @@ type Gen struct {
 	wReq, wTick int
 	nSettle     int
 	nGadget     int
+	nLostAck    int
 	nDiskFull   int
 	nFaultSettle int
 	nCollide    int
@@ -777,6 +778,31 @@ func (g *Gen) Next() Step {
 		}})
 	}
 	cs = append(cs, cand{g.wTick, func() Step { return Step{Op: "tick", Dt: g.dt()} }})
+	// a write whose acknowledgement is lost: the request's writing transaction commits, its completion
+	// is replaced by an error on the way back (the request must answer with an error or with what it did,
+	// never as if somebody else had done it)
+	if g.faults && g.nLostAck < 2 {
+		cs = append(cs, cand{3, func() Step {
+			g.nLostAck++
+			s.Probes["lost_ack_gadget"]++
+			var sp *ReqSpec
+			for try := 0; try < 20; try++ {
+				sp = g.reqSpec()
+				if sp.Kind == "CompletePromise" || sp.Kind == "CreatePromise" || sp.Kind == "AcquireLock" || sp.Kind == "ClaimTask" || sp.Kind == "CreateSchedule" || sp.Kind == "CreateCallback" {
+					break
+				}
+			}
+			g.nReq++
+			g.decorate(sp)
+			sp.Proto, sp.Synth = "", nil
+			// drive it alone: first everything queued finishes, then read (store, router), then the write with its completion lost
+			g.queue = append(g.queue, Step{Op: "req", Client: r.Intn(3), Req: sp}, Step{Op: "tick"},
+				Step{Op: "work", Sub: "store"}, Step{Op: "deliver", Sub: "store"}, Step{Op: "tick"},
+				Step{Op: "work", Sub: "router"}, Step{Op: "deliver", Sub: "router"}, Step{Op: "tick"},
+				Step{Op: "work", Sub: "store", Post: []int{0}}, Step{Op: "deliver", Sub: "store"}, Step{Op: "tick"}, Step{Op: "drain"})
+			return Step{Op: "drain"}
+		}})
+	}
 	// the disk fills up while requests are in flight: writes fail (for a while or for good), reads go on
 	if g.faults && g.nDiskFull < 1 && r.Intn(4) == 0 {
 		cs = append(cs, cand{2, func() Step {
@@ -828,8 +854,8 @@ func (g *Gen) Next() Step {
 	// several tasks of different kinds born inside one background period, then a dispatch cycle
 	// that starts just before one of them times out: the cycle handles a mixed batch whose
 	// members change sides of their deadline between the cycle's stages
-	if g.P.Prologue == "tasks" && g.nGadget < 2 && g.nReq+8 < g.P.MaxReqs {
-		cs = append(cs, cand{2, func() Step {
+	if g.P.Prologue == "tasks" && g.nGadget < 3 && g.nReq+8 < g.P.MaxReqs {
+		cs = append(cs, cand{8, func() Step {
 			g.nGadget++
 			long := int64(10_000_000)
 			ids := append([]string{}, g.P.Promises...)
@@ -840,11 +866,15 @@ func (g *Gen) Next() Step {
 			if r.Intn(2) == 0 {
 				fanIn = pick(r, []string{"a0", "m5", "r0", ids[0]})
 			}
-			for i, n := 0, 2+r.Intn(3); i < n && i < len(ids); i++ {
+			nItems := 2 + r.Intn(3)
+			if fanIn != "" {
+				nItems = 3 + r.Intn(2)
+			}
+			for i := 0; i < nItems && i < len(ids); i++ {
 				id := ids[i]
 				short := pick(r, []int64{1500, 3000, 5000, 20000, long})
 				kindOf := r.Intn(3)
-				if fanIn != "" && i > 0 && r.Intn(3) != 0 {
+				if fanIn != "" && i > 0 && (i < 3 || r.Intn(3) != 0) {
 					kindOf = 2
 				}
 				switch kindOf {
